@@ -138,6 +138,19 @@ def representable(fmt, basic, top_ty):
         if isinstance(x, list):
             return all(walk(v) for v in x)
         if isinstance(x, dict):
+            if fmt == "toml":
+                # a TOML table lists its plain key/value pairs before its sub-tables: the ORDER of a mapping whose
+                # table-valued entries precede scalar ones is not representable (the library law parse(ser(b)) == b
+                # compares ordered mappings)
+                def _is_tbl(v):
+                    return isinstance(v, dict) or (isinstance(v, list) and v and all(isinstance(e, dict) for e in v))
+
+                seen_tbl = False
+                for v in x.values():
+                    if _is_tbl(v):
+                        seen_tbl = True
+                    elif seen_tbl:
+                        return False
             for k, v in x.items():
                 if fmt in ("json", "orjson", "toml", "msgpack") and not isinstance(k, str):
                     return False
